@@ -64,7 +64,7 @@ def _data_cell(rng, htype, spine, p_null=0.15, chords=True):
         else:
             t, a = tokens.gen_note(rng)
         return Cell(t, a['kind'], spine, htype, a)
-    return Cell(rng.choice(FREE[htype]), 'free', spine, htype)
+    return Cell(rng.choice(FREE.get(htype, LYRICS)), 'free', spine, htype)
 
 
 def gen_doc(rng, *, kern_only=False, max_spines=4, splits=True, core=False, comments=True, measures=None,
